@@ -225,6 +225,28 @@ Fixpoint spec_add_from (sh : shape) (regs : list reg) (h : list op) : list event
   end.
 Definition spec_add (h : list op) : list event := spec_add_from shape0 [] h.
 
+(* ---- what a callback can see of its target when it is invoked: "a row WITH
+   ITS CELLS is added to the table" - the row handed over (or the row of the
+   cell handed over) has all the cells the operation gives it.  The view of a
+   target is the number of cells of its row; at add time that is the number
+   after the operation, at render time that of the finished table. *)
+Definition view_of (sh : shape) (x : tgt) : nat :=
+  match x with
+  | XRow r | XCell r _ => match nth_error (sh_rows sh) r with Some sr => cells_n sr | None => 0 end
+  | _ => 0
+  end.
+
+Fixpoint spec_add_views_from (sh : shape) (regs : list reg) (h : list op) : list nat :=
+  match h with
+  | [] => []
+  | o :: r => map (fun e : event => view_of (shape_step sh o) (snd e)) (add_step sh regs o)
+              ++ spec_add_views_from (shape_step sh o) (regs_step regs o) r
+  end.
+Definition spec_add_views (h : list op) : list nat := spec_add_views_from shape0 [] h.
+
+Definition spec_render_views (h : list op) (k : nat) : list nat :=
+  map (fun e : event => view_of (final_shape shape0 h) (snd e)) (spec_render h k).
+
 (* ---- "exactly once per matching target", declaratively *)
 (* x is a matching target of the add-time registration rg *)
 Definition applies (rg : reg) (x : tgt) : bool :=
